@@ -219,6 +219,7 @@ struct Evidence {
   std::map<std::string, std::string> rules;
   std::vector<std::string> fails;  // "sub\tcase\tmsg"
   std::vector<std::string> notes;
+  std::vector<std::string> harness_errors;  // generator gave up, engine errors: never a violation, the run is an ERROR
   bool exhaustive_all = true;
 };
 inline Evidence& ev() { static Evidence e; return e; }
@@ -312,10 +313,9 @@ inline void run_sub(const Sub& sub, bool thorough) {
       if (recorded >= 25) { E.notes.push_back(sub.name + ": stopped after 25 failing instances"); break; }
     } else if (result.template is<rc::detail::GaveUpResult>()) {
       E.notes.push_back(sub.name + " instance " + std::to_string(inst) + ": generator gave up (too many discards)");
-      E.fails.push_back(sub.name + "\t\tGENERATOR gave up: too many discarded cases for instance " +
-                        (sub.instance_name ? sub.instance_name(inst) : std::to_string(inst)));
+      E.harness_errors.push_back(sub.name + ": generator gave up: too many discarded cases for instance " + (sub.instance_name ? sub.instance_name(inst) : std::to_string(inst)));
     } else if (result.template is<rc::detail::Error>()) {
-      E.fails.push_back(sub.name + "\t\tENGINE error: " + result.template get<rc::detail::Error>().description);
+      E.harness_errors.push_back(sub.name + ": engine error: " + result.template get<rc::detail::Error>().description);
     }
   }
 }
@@ -336,6 +336,8 @@ inline void write_result(const std::string& path, double wall) {
   for (size_t k = 0; k < E.samples.size(); k++) std::fprintf(f, "%s\n  %s", k ? "," : "", E.samples[k].c_str());
   std::fprintf(f, "\n ],\n \"notes\": [");
   for (size_t k = 0; k < E.notes.size(); k++) std::fprintf(f, "%s\n  \"%s\"", k ? "," : "", jesc(E.notes[k]).c_str());
+  std::fprintf(f, "\n ],\n \"harness_errors\": [");
+  for (size_t k = 0; k < E.harness_errors.size(); k++) std::fprintf(f, "%s\n  \"%s\"", k ? "," : "", jesc(E.harness_errors[k]).c_str());
   std::fprintf(f, "\n ],\n \"fails\": [");
   for (size_t k = 0; k < E.fails.size(); k++) {
     auto p = split(E.fails[k], '\t');
@@ -381,7 +383,8 @@ inline int engine_main(int argc, char** argv, const std::vector<Sub>& subs) {
     const char* out = std::getenv("VERIF_OUT");
     write_result(out ? out : "/dev/stdout", wall);
     for (auto& f : ev().fails) { auto p = split(f, '\t'); std::printf("FAIL sub=%s case=%s msg=%s\n", p[0].c_str(), p.size() > 1 ? p[1].c_str() : "", p.size() > 2 ? p[2].c_str() : ""); }
-    return ev().fails.empty() ? 0 : 1;
+    for (auto& h : ev().harness_errors) std::printf("HARNESS %s\n", h.c_str());
+    return ev().fails.empty() ? (ev().harness_errors.empty() ? 0 : 1) : 1;
   }
   std::fprintf(stderr, "usage: %s run <quick|thorough> [filter...] | replay <check> <case> | list\n", argv[0]);
   return 2;
